@@ -49,7 +49,7 @@ structure Store where
   id    : Nat
   label : Nat           -- value of the label under key 1 ("zone"); 0 = no such label
   down  : Bool          -- DownTime ≥ WaitStoreTimeout
-  tomb  : Bool
+  tomb  : Bool          -- meta state Tombstone (Up and Offline are both `false`: an Offline store that is down still counts)
   deriving Repr, DecidableEq, Inhabited
 
 structure Config where
